@@ -71,6 +71,12 @@ def observe(cls, c, dyn, want):
             dr = ds.get("dependentRequired", {})
             exp = [[want[0], [want[1]]]] + ([[want[1], [want[0]]]] if c.get("group") else [])
             views["dependentRequired"] = (sorted([k, sorted(v)] for k, v in dr.items()), sorted(exp))
+            # ... under its older spelling too (draft-07 `dependencies`), and in the other versions
+            from apischema.json_schema import JsonSchemaVersion
+            for ver, kw in (("DRAFT_7", "dependencies"), ("DRAFT_2019_09", "dependentRequired"), ("OPEN_API_3_1", "dependentRequired")):
+                vs = deserialization_schema(cls, aliaser=dyn, with_schema=False, all_refs=False, version=getattr(JsonSchemaVersion, ver))
+                views[f"{ver}.{kw}"] = (sorted([str(k), sorted(map(str, v))] for k, v in vs.get(kw, {}).items()), sorted(exp))
+                views[f"{ver}.properties"] = list(vs["properties"])
         if c["dep"]:
             # the rule is enforced on the external names: requiring key present, required key absent
             d = {k: i for i, k in enumerate(want) if k != want[1]}
